@@ -76,7 +76,7 @@ GarbleCases == PositionCases \cup {[target |-> t, index |-> IF t = "load" THEN i
 (* C02 "for all installed states": states in the ephemeral instance that the agent did not write itself *)
 ForeignShapes == {"extra-term-other-family", "extra-term-no-from", "term-named-differently", "term-without-family",
                   "two-terms-one-family", "no-trailing-reject", "no-trailing-reject-extra-filters", "term-without-then",
-                  "reject-only", "own-shape",
+                  "reject-only", "own-shape", "term-without-filters", "both-terms-without-filters",
                   "exact-filter", "orlonger-filter", "upto-filter"}
 ForeignCases == {[shape |-> sh, target |-> t] : sh \in ForeignShapes, t \in {"same", "other", "empty", "unmarked"}}
 
